@@ -74,6 +74,8 @@ def setup():
         f = plumpy.SavableFuture(loop=loop)
         if kind == 'futR':
             f.set_result(plain(path + '.result'))
+        elif kind == 'futT':
+            f.set_result((plain(path + '.result[0]'),))
         elif kind == 'futE':
             f.set_exception(Boom('E1'))
         elif kind == 'futC':
@@ -101,6 +103,8 @@ def setup():
             return plain(path)
         if kind == 'none':
             return None
+        if kind == 'tuple':
+            return (plain(path + '[0]'),)          # an immutable container holding a mutable value
         if kind == 'method':
             return getattr(holder, 'm_' + name)
         if kind == 'sav1':
@@ -114,10 +118,11 @@ def setup():
 
 
 def build_chain(chain):
-    """K1 <- K2 <- ... with the declarations of `chain` = [{'deco': bool, 'names': iterable}]; registered in the module."""
+    """K1 <- K2 <- ... with the declarations of `chain` = [{'way': 'none'|'deco'|'hook', 'names': iterable}]; registered in the
+    module.  'deco' = @auto_persist(*names); 'hook' = a persist() classmethod calling super().persist() and cls.auto_persist(*names)."""
     S = setup()
     plumpy = S['plumpy']
-    key = tuple((bool(d['deco']), tuple(sorted(d['names']))) for d in chain)
+    key = tuple((d['way'], tuple(sorted(d['names']))) for d in chain)
     mod = S['mod']
 
     def k_init(self, kinds):
@@ -131,9 +136,19 @@ def build_chain(chain):
         ns['m_' + n] = meth
     base = plumpy.Savable
     classes = []
-    for i, (deco, names) in enumerate(key, 1):
-        cls = type('K%d' % i, (base,), dict(ns) if i == 1 else {'__module__': MODNAME})
-        if deco:
+    for i, (way, names) in enumerate(key, 1):
+        body = dict(ns) if i == 1 else {'__module__': MODNAME}
+        if way == 'hook':
+            cell = []
+
+            def persist(cls, _cell=cell, _names=names):
+                super(_cell[0], cls).persist()
+                cls.auto_persist(*_names)
+            body['persist'] = classmethod(persist)
+        cls = type('K%d' % i, (base,), body)
+        if way == 'hook':
+            cell.append(cls)
+        if way == 'deco':
             cls = plumpy.auto_persist(*names)(cls)
         classes.append(cls)
         base = cls
@@ -150,6 +165,10 @@ def is_plain(v):
     return isinstance(v, dict) and META not in v and set(v) == {'c'}
 
 
+def is_tuple(v):
+    return isinstance(v, tuple) and len(v) == 1 and is_plain(v[0])
+
+
 def exc_tag(e):
     return getattr(e, 'tag', None) or type(e).__name__
 
@@ -161,6 +180,8 @@ def reach_ids(S, x, out, keep):
         out.add(id(x))
         out.add(id(x['c']))
         keep.append(x)
+    elif is_tuple(x):
+        reach_ids(S, x[0], out, keep)
     elif isinstance(x, plumpy.SavableFuture):
         out.add(id(x))
         keep.append(x)
@@ -186,6 +207,9 @@ def facts(S, x, path, avoid, holder, out):
         if id(x) in avoid or id(x['c']) in avoid:
             out.add((path, 'shared', '-'))
         out.add((path, 'plain', x['c'][0]))
+    elif is_tuple(x):
+        out.add((path, 'tuple', '-'))
+        facts(S, x[0], path + '[0]', avoid, holder, out)
     elif isinstance(x, plumpy.SavableFuture):
         if id(x) in avoid:
             out.add((path, 'shared', '-'))
@@ -230,6 +254,8 @@ def mutate(S, x):
     plumpy = S['plumpy']
     if is_plain(x):
         x['c'][0] += '!'
+    elif is_tuple(x):
+        mutate(S, x[0])                      # the tuple cannot change, what it holds can
     elif isinstance(x, plumpy.SavableFuture):
         if not x.done():
             x.set_result('late')
@@ -264,19 +290,26 @@ def tamper(saved, how):
 
 
 def execute(inst):
-    """-> observation dict {stage, exc, facts(set of triples), resave, stable, usedC}"""
+    """-> observation dict {pre, stage, exc, facts(set of triples), resave, stable, usedC}"""
     S = setup()
     plumpy, loaders, CL = S['plumpy'], S['loaders'], S['CustomLoader']
     classes = build_chain(inst['chain'])
     cfg = inst['ldr']
     loaders.set_object_loader(CL() if cfg == 'global' else None)
     try:
-        orig = classes[inst['t'] - 1](dict(inst['kinds']))
         sctx = plumpy.LoadSaveContext(loader=CL()) if cfg in ('persave', 'ctxboth') else None
         lctx = plumpy.LoadSaveContext(loader=CL()) if cfg == 'ctxboth' else None
+        obs = {'pre': '-', 'stage': 'ok', 'exc': '-', 'facts': set(), 'resave': False, 'stable': True, 'usedC': False}
+        if inst.get('first'):
+            # order of use: an instance of another class of the chain is saved and loaded first
+            try:
+                other = classes[inst['first'] - 1]({n: 'value' for n in inst['kinds']})
+                plumpy.Savable.load(other.save(sctx), lctx)
+            except BaseException as e:  # noqa
+                obs['pre'] = type(e).__name__
+        orig = classes[inst['t'] - 1](dict(inst['kinds']))
         avoid, keep = set(), []
         reach_ids(S, orig, avoid, keep)
-        obs = {'stage': 'ok', 'exc': '-', 'facts': set(), 'resave': False, 'stable': True, 'usedC': False}
         try:
             saved = orig.save(sctx)
         except BaseException as e:  # noqa  (CancelledError is a BaseException)
@@ -309,19 +342,19 @@ def execute(inst):
 
 def expected(out):
     """The specification's `out` record in the shape of an observation."""
-    return {'stage': out['stage'], 'exc': out['exc'], 'facts': set(tuple(f) for f in out['facts']), 'resave': out['resave'],
+    return {'pre': out['pre'], 'stage': out['stage'], 'exc': out['exc'], 'facts': set(tuple(f) for f in out['facts']), 'resave': out['resave'],
             'stable': out['stable'], 'usedC': out['used'] == 'C'}
 
 
 def norm_inst(inst):
     """An instance parsed from TLC output -> plain python (chain: list of {'deco','names': sorted list})."""
-    return {'chain': [{'deco': bool(d['deco']), 'names': sorted(d['names'])} for d in inst['chain']], 't': int(inst['t']),
-            'kinds': dict(inst['kinds']), 'ldr': str(inst['ldr']), 'unk': str(inst['unk'])}
+    return {'chain': [{'way': str(d['way']), 'names': sorted(d['names'])} for d in inst['chain']], 't': int(inst['t']),
+            'kinds': dict(inst['kinds']), 'ldr': str(inst['ldr']), 'unk': str(inst['unk']), 'first': int(inst.get('first', 0))}
 
 
 def diff(exp, obs):
     out = []
-    for k in ('stage', 'exc', 'resave', 'stable', 'usedC'):
+    for k in ('pre', 'stage', 'exc', 'resave', 'stable', 'usedC'):
         if exp[k] != obs[k]:
             out.append([k, exp[k], obs[k]])
     if exp['facts'] != obs['facts']:
